@@ -368,6 +368,38 @@ def case_optimized(ctx):
             ctx.judged(("optimized", tuple(flag)), nontrivial=True, sample={"interpreter_flags": flag, "optimize": res["optimize"], "calls": res["calls"]})
 
 
+def case_size_sweep(ctx, sizes, rseed):
+    """Formulas of every size in a range (N variables, about N clauses): explicit and fixed arguments are judged position
+    by position, random ones through the witness / the invariants."""
+    from cnfgen.transformations.shuffle import Shuffle
+    r = ctx.rng("c09sweep", rseed, tuple(sizes[:2]))
+    for N in sizes:
+        M = N + (N % 3)
+        cls = [[(1 if (i + j) % 2 else -1) * (((i * (j + 2) + j) % N) + 1) for j in range(1 + i % 3)] for i in range(M)] if N else [[]] * (M % 2)
+        cls = [sorted(set(c), key=abs) for c in cls]
+        cls = [[l for k, l in enumerate(c) if -l not in c[:k]] for c in cls]
+        M = len(cls)
+        F = make_cnf(N, cls)
+        flips = [r.choice([1, -1]) for _ in range(N)]
+        perm = list(range(1, N + 1))
+        r.shuffle(perm)
+        cperm = list(range(M))
+        r.shuffle(cperm)
+        for (pf, vp, cp) in ((flips, perm, cperm), ("fixed", "shuffle", "fixed"), ("shuffle", "fixed", "shuffle"), ("shuffle", "shuffle", "shuffle")):
+            seed = r.randint(0, 10 ** 6)
+            random.seed(seed)
+            st, G = ctx.call(Shuffle, F, pf, vp, cp)
+            label = "Shuffle(CNF(%d vars, %d clauses), %s, %s, %s) seed %d" % (N, M, "explicit" if isinstance(pf, list) else pf,
+                                                                               "explicit" if isinstance(vp, list) else vp,
+                                                                               "explicit" if isinstance(cp, list) else cp, seed)
+            ctx.count("size_sweep_calls")
+            if st == "exc":
+                ctx.violation("shuffle:raises:%s" % type(G).__name__, "%s raised %r" % (label, G))
+                continue
+            judge_shuffle(ctx, label, N, cls, G, pf, vp, cp)
+            ctx.judged(("sweep", N, isinstance(pf, list), str(vp)[:8], str(cp)[:8]), nontrivial=M > 0, sample={"variables": N, "clauses": M})
+
+
 def invalid_args(N, M):
     """(which, value, why)"""
     out = []
@@ -546,3 +578,6 @@ def workload(tier, seed):
     for i in range(2 if q else 12):
         yield "T", {"rseed": seed * 1000 + i}
     yield "optimized", {}
+    sweep = list(range(seed % 5, 700, 5)) if q else list(range(0, 1500))
+    for i in range(0, len(sweep), 35):
+        yield "size_sweep", {"sizes": sweep[i:i + 35], "rseed": seed}
